@@ -222,8 +222,8 @@ Proof. exact message_from_wire_family. Qed.
 Print Assumptions no_internal_message.
 
 (* hypothesis-free instance: the executable reader that the correspondence ties to the code *)
-Theorem no_internal_message_instance : forall (wire : list Z), bytes_ok wire -> forall bits : Z,
-  match message_from_wire wire (dec_rdata wire None) (opts_of_bits bits) with
+Theorem no_internal_message_instance : forall (wire : list Z), bytes_ok wire -> forall (origin : option name) (bits : Z),
+  match message_from_wire wire (dec_rdata wire origin) (opts_of_bits bits) with
   | (Exn (XInt _), _) => False
   | (Exn (XLib e), m) =>
       (is_form e = true \/ e = eUnknownTSIGKey) \/ (e = eTruncated /\ o_raise_trunc (opts_of_bits bits) = true)
